@@ -69,7 +69,15 @@ def check_instance(res: Result, cls: type, inst: object, rebuild, perturb, snaps
         ops[name] = ops.get(name, 0) + 1
         res.count("operations")
 
-    before = snapshot(inst)
+    op("immutable-values")
+    p = mutable_path(inst)
+    if p:
+        bad("mutable-value", f"holds a mutable value at {p}")
+    try:
+        before = snapshot(inst)
+    except Exception as exc:  # noqa: BLE001
+        bad("unrepresentable-value", f"holds a value that is not of its declared (immutable) type: {exc}")
+        return
     fields = dataclasses.fields(inst)
     # --- attribute assignment / deletion
     for f in fields[:6] if len(fields) > 6 else fields:
@@ -97,10 +105,6 @@ def check_instance(res: Result, cls: type, inst: object, rebuild, perturb, snaps
     op("no-dict")
     if hasattr(inst, "__dict__"):
         bad("has-dict", "instance has a __dict__")
-    op("immutable-values")
-    p = mutable_path(inst)
-    if p:
-        bad("mutable-value", f"holds a mutable value at {p}")
     # --- equality and hash
     op("eq-rebuild")
     twin = rebuild()
@@ -192,6 +196,10 @@ def c15_worker(res: Result, i: int, n: int) -> None:
         trees = trees[:per - 1] + [g.struct(spec)]
         if res.tier == "thorough":
             trees += [g.struct(spec) for _ in range(per - len(trees))]
+        huge = g.huge_payload_trees(spec)  # what the decoder hands out for large payloads must be immutable too
+        res.count("huge_payload_instances", len(huge))
+        trees = huge + trees
+        nhuge = len(huge)
         for k, tree in enumerate(trees):
             inst = describe.tree_to_instance(spec, tree)
             snap = lambda x, s=spec: refcodec.encode_bytes(s, describe.instance_to_tree(s, x))  # noqa: E731
@@ -199,7 +207,7 @@ def c15_worker(res: Result, i: int, n: int) -> None:
                            lambda t=tree, x=inst: _perturbations(spec, t, x, g, 4 if res.tier == "quick" else 8), snap, ops, "built")
             res.count("instances")
             # what the decoder hands out must be a value object too
-            if k % 2 == 0:
+            if k % 2 == 0 or k < nhuge:
                 try:
                     buf = io.BytesIO()
                     entity_writer(cls)(buf, inst)
